@@ -167,6 +167,7 @@ class Engine:
         self.n_paths = 0
         self.notes: List[str] = []
         self.scouting = 0
+        self.pending_raises: List[Outcome] = []
 
     # ------------------------------------------------------------------ site numbering
     def _number_sites(self):
@@ -487,6 +488,11 @@ class Engine:
             return a.t == z3.BoolVal(b.v)
         if isinstance(a, Obj) and isinstance(b, Obj):
             return a is b
+        if isinstance(a, Closure) and isinstance(b, Closure):
+            return a.fdef is b.fdef     # module-level function objects: one object per definition
+        if isinstance(a, Closure) or isinstance(b, Closure):
+            if isinstance(a, C) or isinstance(b, C):
+                return False
         raise OutOfSubset(f"is: {a} / {b}")
 
     def py_eq(self, st, a, b):
@@ -601,7 +607,13 @@ class Engine:
         m = getattr(self, 's_' + type(s).__name__, None)
         if m is None:
             raise OutOfSubset(f"stmt:{type(s).__name__}", s)
-        return m(s, st)
+        mark = len(self.pending_raises)
+        outs = m(s, st)
+        if len(self.pending_raises) > mark:
+            # exceptions raised inside expressions of this statement (inlined callees, contracted calls)
+            outs = outs + self.pending_raises[mark:]
+            del self.pending_raises[mark:]
+        return outs
 
     def s_Pass(self, s, st):
         return [Outcome(st)]
